@@ -917,6 +917,19 @@ def c09_r4(ctx):
         for lp in walk_no_nested(f2.node):
             if isinstance(lp, ast.For) and norm(lp.iter).startswith("self._dependencies["):
                 nloops.append((f2, lp))
+    if len(nloops) == 0:
+        # comprehension form: [n for n in self._dependencies[node] ...] inside a frontier loop
+        comps = [(f2, c) for f2 in scope for c in walk_no_nested(f2.node) if isinstance(c, (ast.ListComp, ast.GeneratorExp, ast.SetComp)) and any(norm(g.iter).startswith("self._dependencies[") for g in c.generators)]
+        if len(comps) == 1:
+            f2, comp = comps[0]
+            # the variable receiving the new frontier must accumulate over all nodes of the level
+            asg = [st for st in walk_no_nested(f2.node) if isinstance(st, ast.Assign) and st.value is comp and isinstance(st.targets[0], ast.Name)]
+            loops_ = [lp for lp in walk_no_nested(f2.node) if isinstance(lp, ast.For) and asg and any(x is asg[0] for x in ast.walk(lp))]
+            if asg and loops_:
+                ctx.fail(key(f2, "closure"), f"`{asg[0].targets[0].id}` is re-assigned for every node of the current level, so only the dependencies of the *last* node of each level are expanded further: "
+                         "types reachable only through the others are pruned", f2.loc(asg[0]))
+                return
+        raise AnalysisError("_get_dependencies_of_type: traversal form not recognised")
     if len(nloops) != 1:
         raise AnalysisError(f"_get_dependencies_of_type: {len(nloops)} loops over self._dependencies[...]")
     f2, lp = nloops[0]
@@ -1005,7 +1018,7 @@ NAME_FIELDS = {
 }
 
 
-@rule("C17.R1", "every name / path setting is validated on every path of __post_init__", min_instances=14)
+@rule("C17.R1", "every name / path setting is validated on every path of __post_init__", min_instances=18)
 def c17_r1(ctx):
     repo = ctx.repo
     for ck, table in NAME_FIELDS.items():
@@ -1044,6 +1057,25 @@ def c17_r1(ctx):
         else:
             good = bool(o) and all(x.kind != "raise" for x in o) and (not scn[0] or all([norm(e) for e in x.effects] == ["assert_path_exists(self.schema_path)"] for x in o))
         ctx.check(good, key(bs, f"schema_path={scn[0]!r} url={scn[1]!r}"), f"schema source check wrong: {[x.text() for x in o]}", bs.loc(), okmsg=f"schema source ({scn[0]!r},{scn[1]!r}) -> {want}")
+    sd = repo.func("settings:ClientSettings._set_default_base_client_data")
+    eff = lambda c: is_name(c.func, "<setattr>")
+    for nm, pth in ((False, False), (True, False), (False, True), (True, True)):
+        def at(e, nm=nm, pth=pth):
+            t = norm(e)
+            if t == "self.base_client_name":
+                return nm
+            if t == "self.base_client_file_path":
+                return pth
+            return None
+        o = Interp(sd, at, is_effect=eff).run()
+        sets = [{norm(e.args[1]) for e in x.effects if norm(e.args[0]) == "self"} for x in o]
+        if not nm and not pth:
+            good = bool(o) and all(s_ == {"'base_client_name'", "'base_client_file_path'"} for s_ in sets)
+            what = "both unset -> packaged defaults"
+        else:
+            good = bool(o) and all(not s_ for s_ in sets)
+            what = "user value kept, nothing defaulted (a half-specified base client must be rejected by the later checks)"
+        ctx.check(good, key(sd, f"name set={nm}, path set={pth}"), f"base client name set={nm} / path set={pth}: assignments {sets}; expected: {what}", sd.loc(), okmsg=f"base client (name={nm}, path={pth}): {what}")
     fl = [n for n in walk_no_nested(repo.cls("settings:ClientSettings").methods["__post_init__"].node) if isinstance(n, ast.For) and norm(n.iter) == "self.files_to_include"]
     good = len(fl) == 1 and norm(fl[0].body[0]) == f"assert_path_is_valid_file({norm(fl[0].target)})"
     ctx.check(good, "settings::ClientSettings::files_to_include", "files_to_include entries are not each checked to be files", "", okmsg="every files_to_include entry checked")
